@@ -43,8 +43,15 @@ type Frame struct {
 	unwinding bool
 	loopSeen  map[*ssa.BasicBlock]bool
 	loopEv    map[*ssa.BasicBlock]int // number of events when the loop header was first reached
+	loopSnap  map[*ssa.BasicBlock]*headSnap
 	pre       *preSnap // pre-state snapshot for contract checking (root frame or checked-inline)
 	depth     int
+}
+
+// headSnap: state at a loop head (after the invariant was assumed), for at_head(...) in iteration clauses.
+type headSnap struct {
+	heap map[string]Term
+	env  map[string]envEntry
 }
 
 type envEntry struct {
